@@ -96,17 +96,20 @@ def redirLoop (cfg : Cfg) (notLast capture : Bool) : RState → List Redir → R
     | none => (s, false)
     | some s' => redirLoop cfg notLast capture s' rest
 
-/-- the child's side of `run_single_program` for stage `i` of `m + 1` stages, on the table inherited at `fork` -/
-def childRun (cfg : Cfg) (cmd : Command) (i m : Nat) (pipes : List Fds) (cap : Cap) (hs : Option Fds)
-    (capture : Bool) (t0 : Table) : ChildEnd × List (Str × Nat) :=
+/-- child, first phase (core.rs:316-367): close the pipes to the right and (unless last) the capture pipes, put the
+neighbouring pipe ends on 0 / 1.  `prev` = `pipes[idx_cmd - 1]` (present iff `idx_cmd > 0`), `cur` = `pipes[idx_cmd]`
+(present iff `idx_cmd < pipes_count`, i.e. the stage is not the last), `right` = `pipes[idx_cmd + 1 ..]`. -/
+def childPipes (prev cur : Option Fds) (right : List Fds) (cap : Cap) (t0 : Table) : Table :=
   -- close pipes unrelated to the current child (right side)
-  let t := ((List.range (m - (i + 1))).map (· + (i + 1))).foldl (fun t j => closePair t (pipes.getD j (0, 0))) t0
+  let t := right.foldl closePair t0
   -- close the capture pipes (they are only used in the last child)
-  let t := if i < m then closeOpt (closeOpt t cap.1) cap.2 else t
+  let t := if cur.isSome then closeOpt (closeOpt t cap.1) cap.2 else t
   -- replace stdin / stdout with the ends of the neighbouring pipes
-  let t := if i > 0 then let p := pipes.getD (i - 1) (0, 0); (t.dup2 p.1 0).close p.1 else t
-  let t := if i < m then let p := pipes.getD i (0, 0); ((t.dup2 p.2 1).close p.2).close p.1 else t
-  -- `< file`
+  let t := match prev with | some p => (t.dup2 p.1 0).close p.1 | none => t
+  match cur with | some p => ((t.dup2 p.2 1).close p.2).close p.1 | none => t
+
+/-- child, second phase (core.rs:369-387): `< file` (`none`: the file cannot be opened, `process::exit(1)`) and `<<< text` -/
+def childStdin (cfg : Cfg) (cmd : Command) (hs : Option Fds) (t : Table) : Option Table :=
   let t? : Option Table :=
     if cmd.isFrom then
       let path := (cmd.redirectFrom.map (fun (x : Tok) => x.2)).getD []
@@ -116,34 +119,44 @@ def childRun (cfg : Cfg) (cmd : Command) (i m : Nat) (pipes : List Fds) (cap : C
         | some (t1, fd) => some ((t1.dup2 fd 0).close fd)
     else some t
   match t? with
-  | none => (.died 1, [])
+  | none => none
   | some t =>
-    -- `<<< text`
-    let t := if cmd.isHere then
+    some (if cmd.isHere then
         match hs with
         | some p => ((t.close p.2).dup2 p.1 0).close p.1
         | none => t
-      else t
-    match redirLoop cfg (decide (i < m)) capture { t := t } cmd.redirectsTo with
+      else t)
+
+/-- the capture block of the last stage (core.rs:439-457, after `fix:` 81f99bf): both ends of both capture pipes are
+closed; a stream that was not redirected is connected to its pipe first -/
+def capBlock (cap : Cap) (outRed errRed : Bool) (t : Table) : Table :=
+  let t := match cap.1 with
+    | some p => ((if outRed then t.close p.1 else (t.close p.1).dup2 p.2 1)).close p.2
+    | none => t
+  match cap.2 with
+    | some p => ((if errRed then t.close p.1 else (t.close p.1).dup2 p.2 2)).close p.2
+    | none => t
+
+/-- the child's side of `run_single_program` (core.rs:296-500) on the table inherited at `fork` -/
+def childRun (cfg : Cfg) (cmd : Command) (prev cur : Option Fds) (right : List Fds) (cap : Cap) (hs : Option Fds)
+    (capture : Bool) (t0 : Table) : ChildEnd × List (Str × Nat) :=
+  match childStdin cfg cmd hs (childPipes prev cur right cap t0) with
+  | none => (.died 1, [])
+  | some t =>
+    match redirLoop cfg cur.isSome capture { t := t } cmd.redirectsTo with
     | (s, false) => (.died 1, s.opened)
     | (s, true) =>
       -- capture the output of the last stage
-      let t := s.t
-      let t := if i = m ∧ capture then
-          let t := match cap.1 with
-            | some p => ((if s.outRed then t.close p.1 else (t.close p.1).dup2 p.2 1)).close p.2
-            | none => t
-          match cap.2 with
-            | some p => ((if s.errRed then t.close p.1 else (t.close p.1).dup2 p.2 2)).close p.2
-            | none => t
-        else t
+      let t := if cur.isNone ∧ capture then capBlock cap s.outRed s.errRed s.t else s.t
+      -- a program named without `/` is looked up with `read_dir` over $PATH (libs/path.rs:43-88), which needs a
+      -- free descriptor in the child; without one the lookup finds nothing
+      let lookupOk := cmd.name.contains '/' || (t.lowestFree cfg.lim).isSome
       (if cfg.isBuiltin cmd.name then .builtin cmd.argv t
-       else if cfg.found cmd.name then .exec cmd.argv t.atExec
+       else if cfg.found cmd.name ∧ lookupOk then .exec cmd.argv t.atExec
        else .notFound cmd.argv t, s.opened)
 
-/-- who `wait_fg_job` is asked to wait for: a forked stage, or the bogus pid `1` that
-`run_single_program` returns when the here-string pipe cannot be created -/
-inductive FgPid | stage (i : Nat) | bogus
+/-- who `wait_fg_job` is asked to wait for: the forked stages -/
+inductive FgPid | stage (i : Nat)
   deriving DecidableEq, Repr
 
 structure PState where
@@ -154,37 +167,42 @@ structure PState where
   fg : List FgPid := []
   /-- text fed to here-string pipes by the parent: (pipe number, text) -/
   fed : List (Nat × Str) := []
+  /-- stages that could not be started because their here-string pipe could not be created -/
+  hsFailed : List Nat := []
 
-/-- the parent's side of `run_single_program` for stage `i` (not the single-builtin case) -/
-def parentStage (cfg : Cfg) (cmd : Command) (i m : Nat) (pipes : List Fds) (cap : Cap) (capture bg : Bool)
-    (s : PState) : PState :=
-  -- here-string pipe
-  let hsR : Option (Option (Table × Nat × Nat)) :=
-    if cmd.isHere then some (s.shell.pipe cfg.lim s.np) else none
-  match hsR with
-  | some none => { s with fg := if bg then s.fg else s.fg ++ [FgPid.bogus] }     -- `return 1` (pipeline4)
-  | _ =>
-    let (t, np, hs, hsk) := match hsR with
-      | some (some (t1, r, w)) => (t1, s.np + 1, some (r, w), some s.np)
-      | _ => (s.shell, s.np, none, none)
-    -- fork: the child starts from a copy of `t`
-    let child := childRun cfg cmd i m pipes cap hs capture t
-    -- parent: feed and close the here-string pipe
-    let (t, fed) := match hs, hsk with
-      | some p, some k => (closePair t p, s.fed ++ [(k, (cmd.redirectFrom.map (fun (x : Tok) => x.2)).getD [])])
-      | _, _ => (t, s.fed)
-    -- parent: close unused pipe ends
-    let t := if i < m then t.close (pipes.getD i (0, 0)).2 else t
-    let t := if i > 0 then t.close (pipes.getD (i - 1) (0, 0)).1 else t
-    -- parent: read the capture pipes to the end and drop them
-    let t := if i = m ∧ capture then closeOpt (closeOpt t cap.1) cap.2 else t
-    { shell := t, np := np, children := s.children ++ [(i, child)],
-      fg := if bg then s.fg else s.fg ++ [FgPid.stage i], fed := fed }
+/-- the parent's side of `run_single_program` for stage `i` (not the single-builtin case); `prev`, `cur`,
+`right` as for `childRun` -/
+def parentStage (cfg : Cfg) (cmd : Command) (i : Nat) (prev cur : Option Fds) (right : List Fds) (cap : Cap)
+    (capture bg : Bool) (s : PState) : PState :=
+  -- what the parent releases once the stage is dealt with: the write end of the stage's output pipe, the read end
+  -- of its input pipe, and (last stage) the capture pipes
+  let release := fun (t : Table) =>
+    let t := match cur with | some p => t.close p.2 | none => t
+    let t := match prev with | some p => t.close p.1 | none => t
+    if cur.isNone then closeOpt (closeOpt t cap.1) cap.2 else t
+  if cmd.isHere then
+    match s.shell.pipe cfg.lim s.np with
+    | none =>
+      -- `pipeline4` (after `fix:`): the stage is not started; the parent releases what it holds for it
+      { s with shell := release s.shell, hsFailed := s.hsFailed ++ [i] }
+    | some (t1, r, w) =>
+      -- fork: the child starts from a copy of the table; the parent feeds and closes the here-string pipe
+      let child := childRun cfg cmd prev cur right cap (some (r, w)) capture t1
+      { shell := release (closePair t1 (r, w)), np := s.np + 1, children := s.children ++ [(i, child)],
+        fg := if bg then s.fg else s.fg ++ [FgPid.stage i],
+        fed := s.fed ++ [(s.np, (cmd.redirectFrom.map (fun (x : Tok) => x.2)).getD [])], hsFailed := s.hsFailed }
+  else
+    let child := childRun cfg cmd prev cur right cap none capture s.shell
+    { shell := release s.shell, np := s.np, children := s.children ++ [(i, child)],
+      fg := if bg then s.fg else s.fg ++ [FgPid.stage i], fed := s.fed, hsFailed := s.hsFailed }
 
-def parentLoop (cfg : Cfg) (m : Nat) (pipes : List Fds) (cap : Cap) (capture bg : Bool) :
-    Nat → List Command → PState → PState
-  | _, [], s => s
-  | i, c :: rest, s => parentLoop cfg m pipes cap capture bg (i + 1) rest (parentStage cfg c i m pipes cap capture bg s)
+/-- the `for i in 0..length` loop of `run_pipeline`: `rest` are the pipes from `pipes[i]` on -/
+def parentLoop (cfg : Cfg) (cap : Cap) (capture bg : Bool) :
+    Option Fds → List Fds → List Command → Nat → PState → PState
+  | _, _, [], _, s => s
+  | prev, rest, c :: cs, i, s =>
+    parentLoop cfg cap capture bg rest.head? rest.tail cs (i + 1)
+      (parentStage cfg c i prev rest.head? rest.tail cap capture bg s)
 
 /-- the `for _ in 0..length - 1 { pipe() }` loop (core.rs:150-160): stops at the first failure; returns the
 table, the pipe counter, the pipes created so far and whether all were created -/
@@ -213,6 +231,7 @@ structure Result where
   children : List (Nat × ChildEnd × List (Str × Nat)) := []
   fg : List FgPid := []
   fed : List (Nat × Str) := []
+  hsFailed : List Nat := []
   /-- number of the pipe that captures the last stage's stdout -/
   capOut : Option Nat := none
 
@@ -226,8 +245,8 @@ def runPipeline (cfg : Cfg) (cmds : List Command) (capture bg : Bool) (t0 : Tabl
       -- release fds that already created when errors occurred
       { shell := releasePipes t1 pipes, np := np1, outcome := .failed }
     else if !capture then
-      let s := parentLoop cfg m pipes (none, none) capture bg 0 cmds { shell := t1, np := np1 }
-      { shell := s.shell, np := s.np, outcome := .ran, children := s.children, fg := s.fg, fed := s.fed }
+      let s := parentLoop cfg (none, none) capture bg none pipes cmds 0 { shell := t1, np := np1 }
+      { shell := s.shell, np := s.np, outcome := .ran, children := s.children, fg := s.fg, fed := s.fed, hsFailed := s.hsFailed }
     else
       -- capture pipes (core.rs:188-216)
       match t1.pipe cfg.lim np1 with
@@ -236,15 +255,36 @@ def runPipeline (cfg : Cfg) (cmds : List Command) (capture bg : Bool) (t0 : Tabl
         match t2.pipe cfg.lim (np1 + 1) with
         | none => { shell := releasePipes (closePair t2 (r, w)) pipes, np := np1 + 1, outcome := .failed }
         | some (t3, r', w') =>
-          let s := parentLoop cfg m pipes (some (r, w), some (r', w')) capture bg 0 cmds { shell := t3, np := np1 + 2 }
-          { shell := s.shell, np := s.np, outcome := .ran, children := s.children, fg := s.fg, fed := s.fed, capOut := some np1 }
+          let s := parentLoop cfg (some (r, w), some (r', w')) capture bg none pipes cmds 0 { shell := t3, np := np1 + 2 }
+          { shell := s.shell, np := s.np, outcome := .ran, children := s.children, fg := s.fg, fed := s.fed, hsFailed := s.hsFailed, capOut := some np1 }
 
 /-! ### builtin output: `builtins::utils` -/
+
+def closeOptFd (t : Table) : Option Nat → Table
+  | some fd => t.close fd
+  | none => t
 
 /-- `_get_std_fds` (utils.rs:17-50, after `fix:` e06eb6a): one left-to-right walk; `1>&2` / `2>&1` duplicate the other
 descriptor as it stands at that point (the shell's own 2 / 1 when it has not been redirected yet); a target that
 cannot be opened is silently skipped (the slot becomes `None`).  Returns the table, the (stdout, stderr)
 descriptors and the files opened. -/
+def candFd (cfg : Cfg) (t : Table) (o e : Option Nat) (lg : List (Str × Nat)) (isOut : Bool) (op to : Str) :
+    Table × Option Nat × List (Str × Nat) :=
+  let mode := if op = ">>".toList then 2 else 1
+  if isOut ∧ to = "&2".toList then
+    match t.dup cfg.lim (e.getD 2) with
+    | some (t1, fd) => (t1, some fd, lg)
+    | none => (t, none, lg)
+  else if !isOut ∧ to = "&1".toList then
+    match t.dup cfg.lim (o.getD 1) with
+    | some (t1, fd) => (t1, some fd, lg)
+    | none => (t, none, lg)
+  else if cfg.canWrite to then
+    match t.openFile cfg.lim to mode with
+    | some (t1, fd) => (t1, some fd, lg ++ [(to, mode)])
+    | none => (t, none, lg)
+  else (t, none, lg)
+
 def getStdFdsGo (cfg : Cfg) : List Redir → Table → Option Nat → Option Nat → List (Str × Nat) →
     Table × Option Nat × Option Nat × List (Str × Nat)
   | [], t, o, e, lg => (t, o, e, lg)
@@ -252,27 +292,9 @@ def getStdFdsGo (cfg : Cfg) : List Redir → Table → Option Nat → Option Nat
     let isOut := from_ = "1".toList
     if !isOut ∧ from_ ≠ "2".toList then getStdFdsGo cfg rest t o e lg
     else
-      let mode := if op = ">>".toList then 2 else 1
-      let (t, cand, lg) :=
-        if isOut ∧ to = "&2".toList then
-          match t.dup cfg.lim (e.getD 2) with
-          | some (t1, fd) => (t1, some fd, lg)
-          | none => (t, none, lg)
-        else if !isOut ∧ to = "&1".toList then
-          match t.dup cfg.lim (o.getD 1) with
-          | some (t1, fd) => (t1, some fd, lg)
-          | none => (t, none, lg)
-        else if cfg.canWrite to then
-          match t.openFile cfg.lim to mode with
-          | some (t1, fd) => (t1, some fd, lg ++ [(to, mode)])
-          | none => (t, none, lg)
-        else (t, none, lg)
-      if isOut then
-        let t := match o with | some fd => t.close fd | none => t
-        getStdFdsGo cfg rest t cand e lg
-      else
-        let t := match e with | some fd => t.close fd | none => t
-        getStdFdsGo cfg rest t o cand lg
+      let c := candFd cfg t o e lg isOut op to
+      if isOut then getStdFdsGo cfg rest (closeOptFd c.1 o) c.2.1 e c.2.2
+      else getStdFdsGo cfg rest (closeOptFd c.1 e) o c.2.1 c.2.2
 
 def getStdFds (cfg : Cfg) (rs : List Redir) (t : Table) : Table × Option Nat × Option Nat × List (Str × Nat) :=
   getStdFdsGo cfg rs t none none []
@@ -286,16 +308,21 @@ structure Printed where
   /-- the command was refused (reference semantics only: a target could not be opened) -/
   failed : Bool := false
 
-/-- `print_stdout` (err = false) / `print_stderr` (err = true) of a builtin that is the whole line -/
-def builtinPrint (cfg : Cfg) (rs : List Redir) (err : Bool) (t : Table) : Printed :=
-  let (t1, o, e, lg) := getStdFds cfg rs t
-  let (mine, other) := if err then (e, o) else (o, e)
-  let t2 := match other with | some fd => t1.close fd | none => t1
+/-- `_get_dupped_stdout_fd` / `_get_dupped_stderr_fd` + `print_stdout` / `print_stderr` (utils.rs:52-140): the other
+stream's descriptor is closed; the text goes to this stream's descriptor, or to a `dup` of 1 / 2 when it was not
+redirected; the `File` wrapper closes the descriptor when dropped -/
+def finishPrint (cfg : Cfg) (err : Bool) (t1 : Table) (mine other : Option Nat) (lg : List (Str × Nat)) : Printed :=
+  let t2 := closeOptFd t1 other
   match mine with
-  | some fd => { t := t2.close fd, target := (t2 fd).map (·.obj), opened := lg }
+  | some fd => { t := t2.close fd, target := (t2 fd).map (fun en => en.obj), opened := lg }
   | none =>
     match t2.dup cfg.lim (if err then 2 else 1) with
-    | some (t3, fd) => { t := t3.close fd, target := (t3 fd).map (·.obj), opened := lg }
+    | some (t3, fd) => { t := t3.close fd, target := (t3 fd).map (fun en => en.obj), opened := lg }
     | none => { t := t2, target := none, opened := lg }
+
+/-- `print_stdout` (err = false) / `print_stderr` (err = true) of a builtin that is the whole line -/
+def builtinPrint (cfg : Cfg) (rs : List Redir) (err : Bool) (t : Table) : Printed :=
+  let r := getStdFds cfg rs t
+  if err then finishPrint cfg err r.1 r.2.2.1 r.2.1 r.2.2.2 else finishPrint cfg err r.1 r.2.1 r.2.2.1 r.2.2.2
 
 end Cicada.Pipeline
